@@ -48,6 +48,26 @@ PROOFS = [
 PROOFS[0].site = _site
 
 
+_DS = ['c_do_space/do_space_result_contract']
+
+
+def _P2(name, enforce, **kw):
+    return Proof(name, impl='contracts/C19/space2.impl.cpp', spec='contracts/C19/space2.spec.c', enforce=enforce, replace=_DS,
+                 drop_flags=['--conversion-check'], expect=[enforce.split('/')[1] + '.postcondition'], **kw)
+
+
+PROOFS += [
+    _P2('ensure_force_space', 'w_ensure_force_space/ensure_force_space_contract', functions=['space.cpp:ensure_force_space'],
+        mutants=[('guard_dropped', r'return\(av \| IARF_ADD\);', 'return(av);', 'postcondition'),
+                 ('wrong_flag', r'PCF_FORCE_SPACE', 'PCF_IN_PREPROC', 'postcondition')]),
+    _P2('space_needed', 'space_needed/space_needed_contract', canaries=2, functions=['space.cpp:space_needed', 'space.cpp:do_space_ensured', 'space.cpp:ensure_force_space'],
+        mutants=[('remove_gives_one', r'case IARF_REMOVE:\n      return\(0\);', 'case IARF_REMOVE:\n      return(1);', 'postcondition'),
+                 ('min_sp_ignored', r'return\(max\(1, min_sp\)\);', 'return(1);', 'postcondition'),
+                 ('force_guard_bypassed', r'switch \(do_space_ensured\(first, second, min_sp\)\)', 'switch (do_space(first, second, min_sp))', 'postcondition')]),
+    _P2('space_col_align', 'space_col_align/space_col_align_contract', functions=['space.cpp:space_col_align'],
+        mutants=[('add_not_counted', r'case IARF_ADD:\n   case IARF_FORCE:\n      coldiff\+\+;', 'case IARF_FORCE:\n      coldiff++;', 'postcondition')]),
+]
+
 import replay_lib  # noqa: E402
 
 
